@@ -36,6 +36,27 @@ def classify(run, tl, classes):
 def run_sched(case):
     run = schedlab.Run(case)
     run.go()
+    return judge(run, case)
+
+
+def run_twin(case):
+    """two (or three) schedulers of one kind with the same table live in one environment, as the egress ports of a switch do;
+    each serves its own workload and is judged on its own: instances share nothing"""
+    first = schedlab.Run(case["scheds"][0])
+    runs = [first] + [schedlab.Run(sp, lab=first.lab) for sp in case["scheds"][1:]]
+    first.go()
+    nts, classes = [], set()
+    for run, sp in zip(runs, case["scheds"]):
+        info = judge(run, sp)
+        nts.append(info["nontrivial"])
+        classes.update(info["classes"])
+    busy = [{(float(it["s"]), float(it["x"])) for it in r.timeline(sp["exact"])} for r, sp in zip(runs, case["scheds"])]
+    if len(busy) >= 2 and any(a[0] < b[1] and b[0] < a[1] for a in busy[0] for b in busy[1]):
+        classes.add("twins transmitting at the same time")
+    return {"nontrivial": sum(nts) >= 1 and "twins transmitting at the same time" in classes, "classes": sorted(classes)}
+
+
+def judge(run, case):
     classes = {case["kind"]}
     run.check_all_exited()
     run.check_flow_fifo()
@@ -184,6 +205,15 @@ def monitor_strategy(tier):
     return kind.flatmap(build)
 
 
+def twin_strategy(tier):
+    def build(kind):
+        return spec_strategy(kind, tier, exact_only=True).flatmap(
+            lambda sp: st.lists(schedlab.sched_workload([f for f, _ in (sp["f2c"] or sp["table"])],
+                                                        24, exact=True, sizes=st.sampled_from(schedlab.SIZES_NICE)),
+                                min_size=1, max_size=2).map(lambda wls: {"scheds": [sp] + [dict(sp, wl=w) for w in wls]}))
+    return st.sampled_from(["DRR", "DRR", "WFQ", "SP", "VC", "RR", "WRR"]).flatmap(build)
+
+
 def facet_for(kind):
     return Facet(kind, lambda tier, k=kind: spec_strategy(k, tier), run_sched, quick=450, thorough=3000,
                  essential=["busy period >=3 packets from >=2 flows", "arrival exactly at a transmission end",
@@ -204,6 +234,8 @@ PROP = Property(
           "Monitor samples at off-grid instants equal those numbers with the packet in service included/excluded. Non-trivial "
           "= a busy period with >=3 packets from >=2 flows and an arrival exactly at a transmission end."),
     facets=[facet_for(k) for k in schedlab.KINDS] + [
+        Facet("twin", twin_strategy, run_twin, quick=400, thorough=2500,
+              essential=["twins transmitting at the same time", "busy period >=3 packets from >=2 flows"]),
         Facet("monitor", monitor_strategy, run_monitor, quick=500, thorough=3000,
               essential=["sample while a packet of the flow is in service", "sample with a queue",
                          "flow first sampled, then polled, then sends its first packet"])],
